@@ -223,6 +223,20 @@ var errBusy = errors.New("verif: device busy")
 
 func devHandler(c *Case, dev *simdev.Device) server.ModbusHandler {
 	h := srvx.DevHandler(dev, nil)
+	if c.Seed%7 == 3 && c.Kind != "all" {
+		// a handler that encodes every reply into one buffer it keeps and reuses: what Bytes() returns is good until the
+		// handler is called again (and has room behind it) - the server takes the bytes it needs before asking again
+		inner := h
+		scratch := make([]byte, 0, 1024)
+		h = srvx.HandlerFunc(func(ctx context.Context, req packet.Request) (packet.Response, error) {
+			resp, err := inner.Handle(ctx, req)
+			if err != nil || resp == nil {
+				return resp, err
+			}
+			scratch = append(scratch[:0], resp.Bytes()...)
+			return srvx.RawResp{FC: resp.FunctionCode(), B: scratch}, nil
+		})
+	}
 	if !busy(c) {
 		return h
 	}
@@ -509,6 +523,20 @@ func runB(c *Case, r *mon.Rec, rng *rand.Rand, frames [][]byte, ref [][]byte, h 
 	// time a handler takes is not the client's fault: the reply is still owed.
 	h2 := devHandler(c, dev)
 	slow := c.Seed%4 == 1
+	// some pipelined runs send a long stream (the case's requests repeated until it exceeds 700 bytes) in ONE write: the
+	// server's reads come back full - 300 bytes - and cut the stream wherever they cut it
+	burst := !lock && !slow && c.Seed%3 == 1
+	if burst {
+		base, n := frames, 0
+		for _, f := range base {
+			n += len(f)
+		}
+		for total := n; total < 700; total += n {
+			frames = append(frames, base...)
+		}
+		ref = refReplies(c, frames)
+		r.Cover("layer", "B-one-write-longer-than-the-read-buffer")
+	}
 	s.WriteTimeout = 2 * time.Second // (the default 50 ms is scheduling noise on a loaded machine)
 	if slow {
 		s.WriteTimeout = 300 * time.Millisecond
@@ -656,6 +684,9 @@ func runB(c *Case, r *mon.Rec, rng *rand.Rand, frames [][]byte, ref [][]byte, h 
 				sg = sg[300:]
 			}
 			fine = append(fine, sg)
+		}
+		if burst {
+			fine = [][]byte{all}
 		}
 		done := make(chan []byte, 1)
 		go func() {
